@@ -24,6 +24,8 @@ Fixpoint full (t : tree) : Prop :=
   | Node o _ _ kids =>
       (o =? 0 = false -> kids <> []) /\
       (fix all (l : list tree) : Prop := match l with [] => True | k :: r => full k /\ all r end) kids
+  | WLeaf _ _ _ => True
+  | Over _ _ t' => full t'
   end.
 
 Lemma full_node : forall o al pad kids,
@@ -146,7 +148,9 @@ Qed.
 Theorem write_fills : forall fuel done t, wf t -> full t ->
   forall x y w h rs, 0 <= w -> 0 <= h -> write fuel done t x y w h = inl rs -> area_sum rs = w * h.
 Proof.
-  intros fuel done. induction t as [id wd hd|o al pad kids IH] using tree_ind'; intros Hwf Hfull x y w h rs Hw Hh Hr.
+  intros fuel done. induction t as [id wd hd|o al pad kids IH|id wd len|ow oh t IH] using tree_ind'; intros Hwf Hfull x y w h rs Hw Hh Hr;
+    [| |cbn [write] in Hr; injection Hr as <-; unfold area_sum, area; cbn [map zsum rw rh]; lia
+     |cbn [wf] in Hwf; cbn [full] in Hfull; cbn [write] in Hr; apply (IH (proj2 (proj2 Hwf)) Hfull x y w h rs Hw Hh Hr)].
   - cbn [write] in Hr. injection Hr as <-. unfold area_sum, area. cbn [map zsum rw rh]. lia.
   - apply wf_node in Hwf. destruct Hwf as [Hp Hk]. apply full_node in Hfull. destruct Hfull as [Hne Hfk].
     assert (Hkids : Forall (kid_fills (write fuel done)) kids).
